@@ -16,6 +16,19 @@ def same_output(a, b):
     return a.shape == b.shape and np.array_equal(a, b)
 
 
+def same_log(a, b):
+    """draw logs equal, with nan equal to nan (a state outside the domain of the rates - possible only where the user
+    declared no lower limit - makes the requested mean nan on both calls alike)"""
+    if len(a) != len(b):
+        return False
+    for x, y in zip(a, b):
+        if x[0] != y[0] or x[2] != y[2]:
+            return False
+        if x[1] != y[1] and not (isinstance(x[1], float) and isinstance(y[1], float) and x[1] != x[1] and y[1] != y[1]):
+            return False
+    return True
+
+
 def explore_c16(args):
     """Leg (a)+(b) for stochastic simulation: every explored schedule goes only through the
     global generator seam, and the output is a function of the answers: repeating the call on
@@ -45,7 +58,7 @@ def explore_c16(args):
         if s1.global_state_touched:
             viol("global-generator-consumed-outside-the-seam", s1)
         s2 = stoch.run_l2(m, cfg, list(s1.choices), horizon=600, iteration=2)
-        if s2.error is not None or s2.choices != s1.choices or s2.log != s1.log:
+        if s2.error is not None or s2.choices != s1.choices or not same_log(s2.log, s1.log):
             viol("repeat-call-asks-different-draws", s1, second=(s2.error, s2.choices[:40]))
         elif not same_output(s1.out, s2.out):
             viol("repeat-call-different-output", s1)
